@@ -42,10 +42,11 @@ class A(Adapter):
                  (36, 72, 5, 3, 4, 70, None),                    # MMST-v0 defaults
                  (10, 14, 4, 3, 2, 9, (10.0, -1.0, -1.0)),       # 10 nodes / 3 agents: blocks 4,3,3 (remainder 1: only the FIRST block is larger)
                  (13, 20, 4, 4, 2, 10, (10.0, -1.0, -1.0)),      # 13 nodes / 4 agents: blocks 4,3,3,3
-                 (10, 14, 4, 2, 3, (8, 5), (10.0, -1.0, -1.0))]  # time_limit 8 with a generator built for max_step 5 (independent arguments)
+                 (10, 14, 4, 2, 3, (8, 5), (10.0, -1.0, -1.0)),  # time_limit 8 with a generator built for max_step 5 (independent arguments)
+                 (12, 18, 3, 3, 2, 10, (1.0, -0.25, -0.5))]      # tight degree cap: add_edge is refused inside the spanning-tree walk
         if tier != "quick":
             sizes += [(9, 12, 4, 2, 2, 3, (10.0, -1.0, -1.0)),    # time limit 3
-                      (12, 18, 3, 3, 2, 10, (1.0, -0.25, -0.5)), (16, 26, 5, 4, 2, 20, (10.0, -1.0, -1.0)),
+                      (16, 26, 5, 4, 2, 20, (10.0, -1.0, -1.0)),
                       (20, 34, 4, 2, 6, 30, (10.0, -1.0, -1.0)), (8, 10, 6, 2, 2, 1, (10.0, -1.0, -1.0)),
                       (25, 40, 5, 5, 3, 25, (2.0, -1.0, -4.0)),
                       # tight degree cap: add_edge fails inside the random walk (self-loops / split blocks, C10)
